@@ -25,7 +25,9 @@ RULE = ("lattice: Gaussian {sqrtprec,prec,cov,sqrtcov} x {scalar,vector,diag,low
         "x mean {scalar,vector} x dim {1..6, thorough 74..77} x interface {rng object, global numpy, N=1 calls}; GMRF bc {zero,"
         "neumann,periodic} x order {0,1,2} x dim (1-d 3..8, 2-d 3x3/4x4) x prec; univariate families x {scalar,vector,mixed} "
         "parameters x N {1,2,5} x {rng,global}; MHN three schemes x accept/reject; wrapper N {1,2,5} per family + conditional "
-        "distributions; rng isolation per class. distinct = distinct (configuration, numbers); trivial = identity square root "
+        "distributions; rng isolation per class; push/<family> x {scalar,vector} x {RandomState,PCG64,MT19937,global state} x N {1,3,dim} "
+        "(twin stream of base variates); gmrf-eps-law {neumann,periodic} x order {0,1,2} x {1d,2d}; mhn-layout {vector,scalar} x dim {1,2,3} "
+        "x N {1,2,3}. distinct = distinct (configuration, numbers); trivial = identity square root "
         "with zero mean, and bookkeeping cases carrying only an oracle verdict")
 
 SIG_TRI = "Gaussian._sample|sqrtprec:lower-tri-nondiag"
@@ -2524,7 +2526,7 @@ def lessons4_cases(ctx, cases):
 # (C05_gmrf_eps_law); (iii) mhn-layout/* -- the repaired ModifiedHalfNormal._sample (C05_mhn_layout)
 # ------------------------------------------------------------------------------------------------
 PUSH_FAMILIES = ("Normal", "Uniform", "Gamma", "Beta", "Laplace", "Cauchy", "Lognormal", "InverseGamma")
-PUSH_KINDS = ("RandomState", "Generator-PCG64", "Generator-MT19937")
+PUSH_KINDS = ("RandomState", "Generator-PCG64", "Generator-MT19937", "global")      # global: no rng given, numpy's global state seeded (the other branch of every _sample)
 
 
 def twin_uniform(t, shape):
@@ -2552,14 +2554,15 @@ def push_cases(ctx, cases):
         enclosure = fam in ("Laplace", "Cauchy", "Lognormal")
         for kind in PUSH_KINDS:
             for form in ("scalar", "vector"):
-                for N in ((2,) if (enclosure and not ctx.thorough) else (1, 3)):
+                for N0 in ((2,) if (enclosure and not ctx.thorough) else (1, 3, "dim")):
                     k += 1
-                    n = 1 if (form == "scalar" and k % 2 == 0) else rng.choice([2, 3])
+                    n = 1 if (form == "scalar" and k % 2 == 0 and N0 != "dim") else rng.choice([2, 3])
+                    N = n if N0 == "dim" else N0        # N == dim: (dim, N) and (N, dim) have the same shape (a transposition goes unnoticed by shapes)
                     if fam == "Lognormal" and form == "vector":
                         n = max(n, 2)
-                    if fam == "Lognormal":
+                    if fam == "Lognormal" and kind.startswith("Generator"):
                         kind = "RandomState"      # Gaussian._sample calls rng.randn: a numpy Generator is refused (AttributeError; rng/* cells)
-                    meta = {"op": "push", "family": fam, "form": form, "dim": n, "N": N, "kind": kind,
+                    meta = {"op": "push", "family": fam, "form": form, "dim": n, "N": N, "kind": kind, "N_is_dim": N0 == "dim",
                             "params": push_params(rng, fam, form, n), "seed": rng.randint(0, 10 ** 6), "pstyle": "float"}
                     cases.append(push_case(ctx, meta))
 
@@ -2574,15 +2577,25 @@ def push_case(ctx, meta):
     import cuqi
     from scipy.special import gammaincc
     fam, N, n, kind = meta["family"], meta["N"], meta["dim"], meta["kind"]
-    cell = "push/%s/%s/%s/N=%d" % (fam, meta["form"], kind, N)
+    cell = "push/%s/%s/%s/N=%s" % (fam, meta["form"], kind, "dim" if meta.get("N_is_dim") else N)
+    twin_rng = lambda: np.random.RandomState(meta["seed"]) if kind == "global" else mk_rng(kind, meta["seed"])
+    def draw(dobj):
+        if kind != "global":
+            return quiet(dobj.sample, N, rng=mk_rng(kind, meta["seed"]))
+        st = np.random.get_state()
+        try:
+            np.random.seed(meta["seed"])
+            return quiet(dobj.sample, N)
+        finally:
+            np.random.set_state(st)
     if fam == "Lognormal":
         mean = np.array(meta["params"][0], dtype=float); cov = meta["params"][1]
         d = quiet(cuqi.distribution.Lognormal, mean, cov)
         tw = quiet(cuqi.distribution.Gaussian, mean, cov)           # a separately built Gaussian under the twin generator
-        base = np.asarray(quiet(tw._sample, N, rng=mk_rng(kind, meta["seed"])), dtype=float).reshape(n, N)
+        base = np.asarray(quiet(tw._sample, N, rng=twin_rng()), dtype=float).reshape(n, N)
     else:
         d = build_univariate(meta)
-        t = mk_rng(kind, meta["seed"])
+        t = twin_rng()
         ps = [np.broadcast_to(np.asarray(p, dtype=float), (N, n)) for p in meta["params"]]
         if fam == "Normal":
             base = t.standard_normal((N, n)).T
@@ -2595,7 +2608,7 @@ def push_case(ctx, meta):
         elif fam == "Beta":
             g2 = t.standard_gamma(np.stack([ps[0], ps[1]], axis=-1))        # per element: Ga then Gb
             base = np.stack([g2[..., 0].T, g2[..., 1].T], axis=-1)         # (n, N, 2)
-    w = quiet(d.sample, N, rng=mk_rng(kind, meta["seed"]))
+    w = draw(d)
     obs = np.asarray(w.samples if hasattr(w, "samples") else w, dtype=float).reshape(n, N)
     par = lambda k, i: float(np.broadcast_to(np.asarray(meta["params"][k], dtype=float), (n,))[i])
     rows, props, fail = [], [], None
@@ -2688,7 +2701,7 @@ def eps_law_case(ctx, meta):
     lam, V = np.linalg.eigh(P)
     lam = np.where(np.abs(lam) < 1e-12, 0.0, lam)
     es = clist(["(%s, %s)" % (cq(float(lam[k])), cqv(V[:, k])) for k in range(n)])
-    expr = "check_eps_law %s %s %s %s %s" % (cnat(n), cq(prec), cqm(P), cqm(T), es)
+    expr = "check_eps_law %s %s %s %s %s && check_eps_law_discriminates %s %s %s" % (cnat(n), cq(prec), cqm(P), cqm(T), es, cq(prec), cqm(T), es)
     # oracle (the property, with the explicit bound of C05_gmrf_eps_deviation): along every eigen-direction of the precision prec*P
     # implied by logd the variance of the draws is the documented 1/(prec lam) up to the relative amount 2 sqrt(eps)/lam, and there
     # is no variance along its null space
@@ -2704,12 +2717,14 @@ def eps_law_case(ctx, meta):
         v = V[:, k]
         var = float(v @ C @ v)
         if lam[k] == 0.0:
-            if abs(var) > 1e-6:
+            if abs(var) > 1e-10:
                 fail = ("GMRF(%s, order %d, dim %d): the draws have variance %.3g along a null direction of the precision "
                         "(documented: a degenerate law with no variance there)" % (bc, meta["order"], n, var))
         else:
             doc = 1.0 / (prec * lam[k])
-            if abs(var - doc) > doc * (2 * eps / lam[k]) + 1e-6 * doc:
+            # the quadratic form v^T C v is accurate to ~1e-15 (the rounding noise of the 1/eps-conditioned solves lies in the null
+            # direction, orthogonal to v): the bound of C05_gmrf_eps_deviation is tested with a slack of 1e-10 only
+            if not (-1e-10 * doc <= doc - var <= doc * (2 * eps / lam[k]) + 1e-10 * doc):
                 fail = ("GMRF(%s, order %d, dim %d): variance of the draws along the eigen-direction with eigenvalue %.6g of P is %.9g, "
                         "documented 1/(prec lam) = %.9g (allowed relative deviation 2 sqrt(eps)/lam = %.3g)"
                         % (bc, meta["order"], n, lam[k], var, doc, 2 * eps / lam[k]))
@@ -2886,7 +2901,11 @@ def run(ctx):
                       "the laws of numpy/scipy generators (documented densities) are oracles; 'draws are distributed as pi' is proved only as "
                       "offset/covariance of the affine map, generator wiring and proposal x acceptance identities",
                       "tr_rngflow.py: the syntactic RNG call sites over-approximate the semantic ones (aliasing/reflection are rejected)",
-                      "D = _diff_op and P = _prec_op of GMRF are taken from the implementation (their stencils are property C20); only P = D^T D is checked"])
+                      "D = _diff_op of GMRF is recomputed by the model (check_diffop) and P = D^T D is checked; eigenpairs of P in the gmrf-eps-law cells are numpy certificates checked by the model",
+                      "push/* cells: a second numpy generator in the same state delivers the base variates the implementation's generator consumes (numpy's documented algorithms "
+                      "normal = loc + scale*standard_normal, uniform = low + (high-low)*random_sample, gamma = scale*standard_gamma, laplace by inversion, beta = Ga/(Ga+Gb) for a>1 or b>1; "
+                      "scipy 1.12 cauchy / invgamma rvs = loc + scale*ppf(uniform)); the laws of those base variates are oracles",
+                      "change of variables is proved in differential form and for probabilities of intervals (Riemann integral); general measurable sets and independence of successive draws are not formalised"])
 
 
 def classify(meta, detail):
